@@ -59,6 +59,11 @@ type Out struct {
 	Panic    bool     `json:"panic"`
 }
 
+// calls that answer with FileInfo values (or names taken from them): afero hands out live views of the file
+// objects, so what the caller reads from them is read when it looks, not when the call returned. The harness
+// looks right after the call's last release, without a yield in between.
+var liveResult = map[string]bool{"stat": true, "statperm": true, "lstat": true, "h.stat": true, "h.readdir": true, "h.readdirnames": true}
+
 func guard(f func() string) (out string) {
 	defer func() {
 		if r := recover(); r != nil {
@@ -100,6 +105,7 @@ func execute(job Job) Out {
 		verifsched.Go(threads[i], func() {
 			for k, l := range job.Threads[i] {
 				verifsched.Yield(verifsched.Event{Kind: "opstart"})
+				threads[i].NoPost = liveResult[strings.Fields(l)[0]]
 				verifsched.Log = append(verifsched.Log, verifsched.Event{Thread: i, Kind: "op", Class: strings.Fields(l)[0]})
 				inv := step
 				res := guard(func() string { return r.Exec(strings.Fields(l)) })
@@ -614,7 +620,7 @@ func main() {
 	known := corr.LoadKnown(*knownPath)
 
 	res := &corr.Result{Property: id, Tier: *tier, Seed: *seed, Hist: map[string]int{}, Failures: []corr.Failure{}, Exhaustive: true,
-		Rule: "programs of 2–4 goroutines × 1–3 operations over a small shared name set (each name consistently a file or a directory); for each program every schedule with at most 2 (quick) / 3 (thorough) preemptions at lock-acquisition granularity, each run in a child process; non-trivial = at least two operations of different goroutines touch a common name and the schedule preempts inside a multi-section operation; distinct by (program, schedule) hash"}
+		Rule: "programs of 2–4 goroutines × 1–3 operations over a small shared name set (each name consistently a file or a directory); for each program every schedule with at most 2 (quick) / 3 (thorough) preemptions at lock-acquisition and post-release granularity, each run in a child process; non-trivial = at least two operations of different goroutines touch a common name and the schedule preempts inside a multi-section operation; distinct by (program, schedule) hash"}
 	nPrograms, maxPre, maxSched := 120, 2, 400
 	if *tier == "thorough" {
 		nPrograms, maxPre, maxSched = 600, 3, 2000
